@@ -54,3 +54,12 @@ check(
     "stateful property testing with an external-tool (git CLI) differential audit after every step",
     "DESIGN.md section 3 C09",
 )
+
+check(
+    "C07",
+    "exploration",
+    "Generated write/delete histories (calendars and address books, tree and bare git, shared bodies across names, delete-recreate, reverts, PROPPATCH, restarts, collection re-creation) with the sync-token and member->ETag snapshot recorded after every step; sync-collection reports for earlier/current/empty/foreign tokens are compared with the exact set difference between the two snapshots, the returned token with the live property, and a replica is replayed.",
+    "Trusted: ETag identity as change detector (C02 checks it separately); snapshots taken by the harness through PROPFIND. The empty-tree id is treated as denoting the empty state rather than as foreign.",
+    "model-based stateful property testing (snapshot-difference oracle + replica replay)",
+    "DESIGN.md section 3 C07",
+)
